@@ -76,8 +76,10 @@ struct Written {
 }
 
 /// Append `records` with a writer re-opened (append mode) before every index in `reopen_before`.
-fn write_log(records: &[Vec<u8>], reopen_before: &[usize]) -> Result<Written, String> {
+/// `write_limit` > 0: the file takes at most that many bytes per `write` call (see SimFs).
+fn write_log(records: &[Vec<u8>], reopen_before: &[usize], write_limit: usize) -> Result<Written, String> {
     let fs = SimFs::from_image(&base_image());
+    fs.set_write_limit(write_limit);
     fs.record_journal(true);
     let provider = fs.as_provider();
     let path = log_path();
@@ -316,7 +318,7 @@ fn case_enumerated(out: &mut CaseOut, tier: &str, seed: u64, idx: usize) {
             pairs += 1;
             let ctx = json!({"family": "enumerated", "start_offset": start, "record_len": len, "reopen_before": pattern});
             let sig = format!("{}+{}", off_class(start), len_class(len));
-            match write_log(&records, pattern) {
+            match write_log(&records, pattern, 0) {
                 Err(e) => out.violate(format!("C12/write-failed/{sig}"), json!({"ctx": ctx, "error": e})),
                 Ok(w) => {
                     if w.ends.get(rec_index.wrapping_sub(1)).copied().unwrap_or(0) != start {
@@ -359,7 +361,7 @@ fn case_append_after_stop(out: &mut CaseOut, seed: u64, idx: usize) {
         }
         let big_index = records.len();
         records.push(record_bytes(&mut rng, big, 0xB2));
-        let w = match write_log(&records, &[]) {
+        let w = match write_log(&records, &[], 0) {
             Ok(w) => w,
             Err(e) => {
                 out.violate("C12/write-failed/stop", json!({"error": e}));
@@ -509,8 +511,17 @@ fn case_random(out: &mut CaseOut, tier: &str, seed: u64, idx: usize) {
         records.push(record_bytes(&mut rng, l, 0x5A));
     }
     let reopen: Vec<usize> = (1..records.len()).filter(|_| rng.chance(0.15)).collect();
-    let ctx = json!({"family": "random", "record_lens": describe(&records), "reopen_before": reopen});
-    match write_log(&records, &reopen) {
+    // every fourth log lives on a file that takes only a few bytes per write call
+    let write_limit = if idx % 4 == 1 { *rng.pick(&[1usize, 6, 7, 100, 4096, 32767]) } else { 0 };
+    if write_limit > 0 && write_limit < 100 {
+        // (a few bytes per call: keep the log to about two blocks)
+        let mut sum = 0usize;
+        let keep = records.iter().take_while(|r| { sum += r.len(); sum <= 70_000 }).count().max(1);
+        records.truncate(keep);
+    }
+    let reopen: Vec<usize> = reopen.into_iter().filter(|i| *i < records.len()).collect();
+    let ctx = json!({"family": "random", "record_lens": describe(&records), "reopen_before": reopen, "file_takes_at_most_bytes_per_write": write_limit});
+    match write_log(&records, &reopen, write_limit) {
         Err(e) => out.violate("C12/write-failed/random", json!({"ctx": ctx, "error": e})),
         Ok(w) => {
             let file_len = *w.ends.last().unwrap_or(&0);
@@ -529,7 +540,7 @@ fn case_random(out: &mut CaseOut, tier: &str, seed: u64, idx: usize) {
             check_written(out, &w, &cuts, &ctx, "random");
             let blocks = file_len / BLOCK;
             if blocks > 0 || w.reopens > 0 {
-                out.nontrivial(format!("random/blocks{}/reopens{}/n{}", blocks.min(8), w.reopens.min(6), (records.len() / 25).min(8)));
+                out.nontrivial(format!("random/blocks{}/reopens{}/n{}{}", blocks.min(8), w.reopens.min(6), (records.len() / 25).min(8), if write_limit > 0 { "/partial-writes" } else { "" }));
             }
             out.add("random_records", records.len() as u64);
             out.sample = Some(json!({"family": "random", "records": records.len(), "file_len": file_len,
